@@ -59,8 +59,8 @@ def install():
         _SHIMMED = True
 
 
-EMBED_T = ["direct", "lst", "dct", "holder_t", "holder_ts", "pre_t", "pre_nested_t", "explicit", "meta_t", "meta_ts"]
-EMBED_O = ["art", "arts", "adct", "holder_a", "pre_art", "init_art", "explicit", "meta_art"]
+EMBED_T = ["direct", "lst", "dct", "holder_t", "holder_ts", "pre_t", "pre_nested_t", "explicit", "meta_t", "meta_ts", "copied"]
+EMBED_O = ["art", "arts", "adct", "holder_a", "pre_art", "init_art", "explicit", "meta_art", "copied"]
 SINGLE = {"direct", "art", "holder_t", "holder_a", "meta_t", "meta_art"}
 # "pre_on_out" (added by the plan generator, needs a second dependency as carrier): the upstream is embedded in a
 # pre-task attached to the *output configuration of another upstream task*, which the job receives as a parameter
@@ -134,6 +134,11 @@ class PlanRun:
                 nested_pre.append(zoo.Pre(k=n, t=out))
             elif how == "init_art":
                 init.append(zoo.Init(k=n, art=out))
+            elif how == "copied":
+                # a fresh configuration that takes over the dependencies of the upstream's output (copy_dependencies)
+                a = zoo.Artifact(v=1000 + n)
+                a.copy_dependencies(out)
+                kwargs.setdefault("arts", []).append(a)
             elif how == "meta_t":
                 kwargs["mt"] = out
             elif how == "meta_ts":
